@@ -141,6 +141,10 @@ def check_pipeline_outputs(ds, outdir, prefix, with_genedb):
         introns = _introns(exons)
         exp = expected_flag(ds.chroms[row["chr"]], introns, row["strand"])
         stats["read_flags"] += 1
+        if introns and exons[0][0] <= 30:
+            stats["spliced_read_flags_at_contig_start"] = stats.get("spliced_read_flags_at_contig_start", 0) + 1
+        if introns and exons[-1][1] >= len(ds.chroms[row["chr"]]) - 5:
+            stats["spliced_read_flags_at_contig_end"] = stats.get("spliced_read_flags_at_contig_end", 0) + 1
         if exp is None:
             stats["read_dot"] += 1
             continue
@@ -186,6 +190,10 @@ def check_pipeline_outputs(ds, outdir, prefix, with_genedb):
                 flag = _flag_of(flag)
                 exp = expected_flag(seq, introns, t["strand"])
                 stats["model_flags"] += 1
+                if introns and min(e[0] for e in t["exons"]) <= 25:
+                    stats["spliced_model_flags_at_contig_start"] = stats.get("spliced_model_flags_at_contig_start", 0) + 1
+                if introns and max(e[1] for e in t["exons"]) >= len(seq) - 3:
+                    stats["spliced_model_flags_at_contig_end"] = stats.get("spliced_model_flags_at_contig_end", 0) + 1
                 if exp is not None:
                     if exp in (True, False):
                         stats["model_flags_" + ("true" if exp else "false")] += 1
@@ -278,7 +286,30 @@ def dedupe_first(entries, keylen):
     return sorted(out, key=lambda e: json.dumps(e[:keylen]))
 
 
+def _gene_ref_via_loader(M, kw):
+    """the `gene_info` exactly as the model-construction pass gets it: a GENE_INFO record written with
+    GeneInfo.serialize, read back by the real NormalTmpFileAssignmentLoader.get_object (which loads the reference window)"""
+    import tempfile
+    import src.serialization as S
+    d = tempfile.mkdtemp(prefix="isoverif_C18ld_")
+    try:
+        path = os.path.join(d, "dump")
+        with open(path, "wb") as f:
+            S.write_short_int(M.AIO.TmpFileAssignmentPrinter.GENE_INFO, f)
+            M.GI.GeneInfo.from_region("chr1", kw["start"], kw["end"]).serialize(f)
+            S.write_short_int(S.SHORT_TERMINATION_INT, f)
+        ld = M.AIO.NormalTmpFileAssignmentLoader(path, None, kw["chrom"])
+        gi = ld.get_object()
+        ld.loader.close()
+        ld.loader = open(os.devnull, "rb")      # __del__ closes it
+        return gi
+    finally:
+        shutil.rmtree(d, ignore_errors=True)
+
+
 def _gene_ref(M, kw):
+    if kw.get("via") == "loader":
+        return _gene_ref_via_loader(M, kw)
     if "chrom" in kw:
         gi = M.GI.GeneInfo.from_region("chr1", kw["start"], kw["end"])
         gi.set_reference_sequence(kw["start"], kw["end"], kw["chrom"])
@@ -588,6 +619,32 @@ def gen_cases(ctx, rng=None):
                                       "start": start, "reads": reads}))
         if start == 1:
             cases.append(("detector", {"seq": seq, "ops": gen_detector_ops(rng, seq, introns)}))
+    # windows that touch the borders of the contig (first locus of a small contig / organelle genome): region start
+    # 1..25 and / or region end on the last bases; directly through set_reference_sequence and through the loader
+    for _ in range(400 if quick else 4000):
+        n = rng.choice([40, 60, 120])
+        chrom, introns = G.planted_sequence(rng, n=n, start=1)
+        start = rng.choice([0, 0, 1, 1, 2, -2, rng.randint(1, 25), rng.randint(1, 25), rng.randint(1, 25)])
+        end = n - rng.choice([0, 0, 1, 3, 10])
+        lo = max(1, start)
+        inside = [it for it in introns if lo <= it[0] and it[1] <= end]
+        for _k in range(3):      # make sure some planted introns lie inside the window, also hard at its borders
+            a = rng.choice([lo, lo, lo + 1, rng.randint(lo, max(lo, end - 6))])
+            b = rng.choice([end, end, end - 1, rng.randint(min(a + 3, end), end)])
+            if a + 3 <= b:
+                chrom = G.plant(chrom, (a, b), rng.choice(G.FWD_PAIRS + G.REV_PAIRS + G.NEAR_MISS[:3]))
+                inside.append((a, b))
+        pool = inside + [rng.choice(introns)] + G.odd_introns(rng, n, 1)[:1]
+        hist = [[[list(i) for i in q], s_] for q, s_ in G.query_history(rng, pool)]
+        kw = {"chrom": chrom, "start": start, "end": end, "queries": hist}
+        if rng.random() < 0.6 and start >= 0:        # the dump format has no negative numbers
+            kw["via"] = "loader"
+        cases.append(("canon_history", kw))
+        models = gen_models(rng, chrom[lo - 1:end], inside, lo)
+        mk = {"chrom": chrom, "start": start, "end": end, "models": models}
+        if rng.random() < 0.6 and start >= 0:
+            mk["via"] = "loader"
+        cases.append(("model_info", mk))
     # novel-transcript decisions on well-formed intron chains (sorted, disjoint, inside the sequence), enough reads
     for _ in range(600 if quick else 8000):
         seq, chain = novel_chain(rng)
@@ -738,10 +795,12 @@ def oracle_case(mode, kw):
         fails, _ = pipeline_case(kw)
         return (fails[0][0], fails[0][1]) if fails else None
     if mode in ("canon_history", "model_info", "read_fields"):
-        seq = kw["chrom"][max(kw["start"] - 1, 0):kw["end"]] if "chrom" in kw else kw["seq"]
-        start = kw["start"]
-        if "chrom" in kw and kw["start"] < 1:
-            return None
+        if "chrom" in kw:
+            # a window asked to start at or before 0 (0-based start of a read cluster at the first base) begins at base 1
+            start = max(1, kw["start"])
+            seq = kw["chrom"][start - 1:max(kw["end"], 0)]
+        else:
+            seq, start = kw["seq"], kw["start"]
         got = {"canon_history": impl_canon_history, "model_info": impl_model_info, "read_fields": impl_read_fields}[mode](kw)["out"]
         if mode == "canon_history":
             for i, (q, s) in enumerate(kw["queries"]):
@@ -866,6 +925,11 @@ WITNESSES = [
     ("canon_history", {"seq": "AAAAGTCCCCCCAGTTTT", "start": 1, "queries": [[[[5, 14]], "+"], [[[5, 14]], "-"]]}),
     ("canon_history", {"seq": "AAAAGTCCCCCCAGTTTT", "start": 1, "queries": [[[[5, 14]], "-"], [[[5, 14]], "+"]]}),
     ("canon_history", {"seq": "aaaagtccccccagtttt", "start": 1, "queries": [[[[5, 14]], "+"]]}),
+    # read cluster at the first base of a contig (0-based region start 0): the window must not come out empty
+    ("model_info", {"chrom": "AAAAGTCCCCCCAGTTTT", "start": 0, "end": 16,
+                    "models": [{"exons": [[1, 4], [15, 16]], "strand": "+", "attr": None}]}),
+    ("model_info", {"chrom": "AAAAGTCCCCCCAGTTTT", "start": 0, "end": 16, "via": "loader",
+                    "models": [{"exons": [[1, 4], [15, 16]], "strand": "+", "attr": None}]}),
     ("canon_history", {"seq": "AAAACTCCCCCCACTTTT", "start": 1, "queries": [[[[5, 14]], "."], [[[5, 14]], "+"], [[[5, 14]], "-"]]}),
 ]
 
